@@ -302,25 +302,31 @@ def choose_alg(rnd, c, present):
     return dict(cls=a)
 
 
-def power_case(rnd, nmax):
+def power_case(rnd, nmax, present=()):
     g = L.nprng(rnd)
     n = rnd.randint(2, nmax)
     sa = rnd.random() < 0.6
+    cplx = "power_iteration_complex_no_conj" not in present and rnd.random() < 0.35
     mags = sorted(L.separated(rnd, n, gap=0.45), reverse=True)
     pos = rnd.random() < 0.7
-    lam = np.array([mags[0]] + [m * (1 if pos else rnd.choice([-1, 1])) for m in mags[1:]])
+    lead = mags[0] * (rnd.choice([-1, 1]) if "power_iteration_negative_eig" not in present else 1)
+    lam = np.array([lead] + [m * (1 if pos else rnd.choice([-1, 1])) for m in mags[1:]], dtype=np.complex128 if cplx else np.float64)
+    if cplx and not sa:
+        lam = lam * np.exp(1j * np.array([rnd.uniform(-3, 3) for _ in range(n)]))
     if sa:
-        Q = L.rand_unitary(g, n, False)
-        M = (Q * lam) @ Q.T
-        M = (M + M.T) / 2
+        Q = L.rand_unitary(g, n, cplx)
+        M = (Q * lam) @ Q.conj().T
+        M = (M + M.conj().T) / 2
     else:
-        S = L.well_cond(g, n, False, 3.0)
+        S = L.well_cond(g, n, cplx, 3.0)
         M = S @ np.diag(lam) @ np.linalg.inv(S)
+    if not cplx:
+        M = M.real
     how = rnd.choice(["auto", "auto", "alg", "alg", "eigmax", "call"])
     kw = {}
     if how in ("alg", "call", "eigmax") and rnd.random() < 0.7:
         kw = rnd.choice([dict(tol=1e-3), dict(tol=1e-10, max_iter=400), dict(max_iter=3), dict(max_iter=1), dict(tol=1e-8, max_iter=100), dict(tol=0.5)])
-    return dict(kind="power", n=n, dt="float64", M=M, lam=lam, sa=sa, how=how, kwargs=kw, wrap="Dense", seed=0)
+    return dict(kind="power", n=n, dt="complex128" if cplx else "float64", M=M, lam=lam, sa=sa, how=how, kwargs=kw, wrap="Dense", seed=0, cplx=cplx)
 
 
 def rayleigh_all_positive(M, v0, steps=1200):
@@ -440,7 +446,8 @@ def run(ctx):
     terms, meta = [], []          # QI cases
     aterms = []                   # Auto-rule observations
     eigmaxmin_checked = [0]
-    pterms, pmeta = [], []        # power-iteration cases
+    pterms, pmeta = [], []        # power-iteration cases (real)
+    pcterms, pcmeta = [], []      # power-iteration cases (complex)
     hist = {}
     near_tie = 0
     skipped_region = {}
@@ -495,13 +502,15 @@ def run(ctx):
         bad, near = check_property(D, obs["w"], obs["V"], k, which, False, lam_true, tol, check_sel=(c["kind"] != "ident"))
         if bad:
             oracle_viol.append(len(meta))
-        # Coq term
+        # Coq term (the model runs at the probed flag vector: repaired rules sort by magnitude)
+        bymag = "false" if "eig_diag_sorted_by_value" in present else "true"
         if c["kind"] == "ident":
             rule = "RIdent"
         elif c["kind"] == "diag":
-            rule = "(RDiag [" + ";".join(L.qic_exact(v[0], v[1]) for v in c["d"]) + "])"
+            rule = f"(RDiag {bymag} [" + ";".join(L.qic_exact(v[0], v[1]) for v in c["d"]) + "])"
         else:
-            rule = "(RTri [" + ";".join("[" + ";".join(L.qic_exact(v[0], v[1]) for v in r) + "]" for r in c["A"]) + "] " + \
+            lowrule = "true" if (c["lower"] and "eig_triangular_lower_upper_swapped" not in present) else "false"
+            rule = f"(RTri {bymag} {lowrule} [" + ";".join("[" + ";".join(L.qic_exact(v[0], v[1]) for v in r) + "]" for r in c["A"]) + "] " + \
                    ("true" if not cplx_of(c["dt"]) or "eig_triangular_complex_drops_imag" in present else "false") + ")"
         scale = max(1.0, float(np.abs(obs["V"]).max(initial=0)), float(np.abs(D).max(initial=0)))
         tol2 = 0 if c["kind"] in ("ident", "diag") else (tol * 100 * scale) ** 2
@@ -594,7 +603,11 @@ def run(ctx):
         # Eigh/Eig slice arrays (bit-exact); the Krylov rules slice a lazy product Q @ P, whose columns are then recomputed by a
         # different BLAS call: values must still agree to the last bit of the oracle up to 1e-12 (float64) / 1e-5 (float32)
         ctol = 0 if eff in ("Eigh", "Eig") else ((1e-5 if f32 else 1e-12) * max(1.0, float(np.abs(oV).max(initial=0)), float(np.abs(ow).max(initial=0)))) ** 2
-        terms.append(f"mkecase {n} (ROracle {ow.shape[0]} {L.qvec(ow)} {L.qmat(oV)}) ({k}) {which} {L.qc_lit(ctol)} true {L.qvec(w)} {L.qmat(V)}")
+        srt = {"Eigh": "eigh_algebraic_not_magnitude", "Lanczos": "eigh_algebraic_not_magnitude", "Eig": "eig_dense_unsorted", "Arnoldi": "eig_dense_unsorted"}.get(eff)
+        srt = "true" if (srt is not None and srt not in present) else "false"
+        if srt == "true":
+            ctol = max(ctol, 0 if eff in ("Eigh", "Eig") else ctol)
+        terms.append(f"mkecase {n} (ROracle {srt} {ow.shape[0]} {L.qvec(ow)} {L.qmat(oV)}) ({k}) {which} {L.qc_lit(ctol)} true {L.qvec(w)} {L.qmat(V)}")
         if alg is None or alg["cls"] == "Auto":
             aterms.append(f"mkacase {'true' if c['sa'] else 'false'} true ({k}) {which} A{eff}")
         # eigmax / eigmin agree with eig(A, 1, LM|SM)[0][0] on the same algorithm
@@ -622,7 +635,8 @@ def run(ctx):
             okb, wv, Vv = "true", L.qvec(w), L.qmat(np.asarray(V).reshape(3, -1)) if np.asarray(V).size else "[[];[];[]]"
         except ValueError:
             okb, wv, Vv = "false", "[]", "[]"
-        terms.append(f"mkecase 3 (RDiag [{';'.join(L.qic_exact(x) for x in d)}]) ({kk}) {which} {L.qc_lit(0)} {okb} {wv} {Vv}")
+        bm = "false" if "eig_diag_sorted_by_value" in present else "true"
+        terms.append(f"mkecase 3 (RDiag {bm} [{';'.join(L.qic_exact(x) for x in d)}]) ({kk}) {which} {L.qc_lit(0)} {okb} {wv} {Vv}")
         meta.append(dict(case=dict(kind="edge", d=d, k=kk, which=which), bad=[], got={}))
 
     # ---------------- power iteration (float tier)
@@ -631,7 +645,7 @@ def run(ctx):
     import cola
     from cola import ops
     for _ in range(n_pow):
-        c = power_case(rnd, ctx.budget(6, 9))
+        c = power_case(rnd, ctx.budget(6, 9), present)
         n = c["n"]
         if "power_iteration_negative_eig" in present:
             xnp0 = ops.Dense(c["M"]).xnp
@@ -639,13 +653,13 @@ def run(ctx):
                 bump(skipped_region, "power_iteration_negative_eig")
                 continue
         evals += 1
-        bump(hist, "power:" + c["how"])
+        bump(hist, "power:" + c["how"] + (":complex" if c["cplx"] else "") + (":negative" if np.real(c["lam"][0]) < 0 else ""))
         A = ops.Dense(c["M"])
         if c["sa"]:
             A = cola.SelfAdjoint(A)
         kw = c["kwargs"]
         tolv, maxit = kw.get("tol", 1e-6), kw.get("max_iter", 100)
-        case_js = dict(kind="power", n=n, sa=c["sa"], how=c["how"], kwargs=kw, M=c["M"].tolist())
+        case_js = dict(kind="power", n=n, sa=c["sa"], how=c["how"], kwargs=kw, M=c["M"].tolist() if not c["cplx"] else [[str(x) for x in r] for r in c["M"]])
         distinct.add(core.digest(case_js))
         try:
             v_ref, e_ref, info = PowerIteration(**kw)(A)
@@ -665,7 +679,7 @@ def run(ctx):
         except Exception as ex:
             mism.append(dict(oracle_fail=True, case=case_js, got=f"{type(ex).__name__}: {str(ex)[:200]}", failed_clauses=["raised on an input the model accepts"]))
             continue
-        if not (float(e) == float(e_ref) and np.array_equal(np.asarray(v), np.asarray(v_ref))):
+        if not (complex(e) == complex(e_ref) and np.array_equal(np.asarray(v), np.asarray(v_ref))):
             mism.append(dict(oracle_fail=False, case=case_js, failed_clauses=["eig(A,1,'LM'[,PowerIteration]) / eigmax differ from PowerIteration(...)(A)"]))
             continue
         xnp = A.xnp
@@ -679,16 +693,24 @@ def run(ctx):
                 bad.append(f"value {e} is not the dominant eigenvalue {lam1} (stopped by tolerance after {iters} steps)")
             vv = np.asarray(v) / np.linalg.norm(v)
             r = float(np.abs(c["M"] @ vv - e * vv).max())
-            if not (r <= 5e-2 * abs(lam1)):
+            if not (r <= 5e-2 * abs(lam1) / (1 if c["sa"] else 1)):
                 bad.append(f"residual {r:.3g}")
         if iters > maxit:
             bad.append(f"{iters} iterations exceed max_iter={maxit}")
         if bad:
-            oracle_viol.append(("p", len(pmeta)))
-        pterms.append(f"mkpcase {L.fmat(c['M'])} {L.hexf(tolv)} {maxit} {L.fvec(v0)} {L.hexf(e)} {iters} {L.fvec(v)}")
+            oracle_viol.append(("p", len(pmeta) + len(pcmeta)))
+        pfl = f"(mkpflags {'false' if 'power_iteration_negative_eig' in present else 'true'} {'false' if 'power_iteration_complex_no_conj' in present else 'true'})"
+        if c["cplx"]:
+            cf = lambda z: f"({L.hexf(complex(z).real)}, {L.hexf(complex(z).imag)})"
+            cv = lambda a: "[" + ";".join(cf(z) for z in np.asarray(a).reshape(-1)) + "]"
+            cm = lambda a: "[" + ";".join(cv(r_) for r_ in np.asarray(a)) + "]"
+            pcterms.append(f"mkpcase {pfl} {cm(c['M'])} {cf(tolv)} {maxit} {cv(v0)} {cf(10)} {cf(1)} {cf(e)} {iters} {cv(v)}")
+            pcmeta.append(dict(case=case_js, bad=bad, got=dict(eig=str(e), iterations=iters)))
+        else:
+            pterms.append(f"mkpcase {pfl} {L.fmat(c['M'])} {L.hexf(tolv)} {maxit} {L.fvec(v0)} {L.hexf(10)} {L.hexf(1)} {L.hexf(e)} {iters} {L.fvec(v)}")
+            pmeta.append(dict(case=case_js, bad=bad, got=dict(eig=float(e), iterations=iters)))
         if c["how"] == "auto":
             aterms.append(f"mkacase {'true' if c['sa'] else 'false'} true (1) LM APower")
-        pmeta.append(dict(case=case_js, bad=bad, got=dict(eig=float(e), iterations=iters)))
 
     # ---------------- in-Coq comparison
     fails = set()
@@ -708,19 +730,21 @@ def run(ctx):
             lst = L.parse_natlist(out) if rc == 0 else None
             if lst is None or lst:
                 mism.append(dict(oracle_fail=False, harness_error=f"Auto table: shard {si} rc={rc} failing={lst}\n{out[-800:]}"))
-    pfails, pties = set(), set()
-    if pterms:
-        outs, shard = L.run_shards("c10_p", HEADER, "pcase", pterms, "Eval vm_compute in (codes_from check_pcase 0 cases).", shard=100)
-        for si, (rc, out) in enumerate(outs):
-            lst = L.parse_pairlist(out) if rc == 0 else None
-            if lst is None:
-                mism.append(dict(oracle_fail=False, harness_error=f"Coq shard c10_p_{si}: rc={rc}\n{out[-1500:]}"))
-                continue
-            for i, code in lst:
-                (pfails if code == 1 else pties).add(si * shard + i)
-    for i, m in enumerate(pmeta):
-        if i in pfails or m["bad"]:
-            mism.append(dict(oracle_fail=bool(m["bad"]), case=m["case"], got=m["got"], failed_clauses=m["bad"], model_disagrees=(i in pfails)))
+    pties = set()
+    for nm, decl, chk, pt, pm in (("c10_p", "(pcase (T:=float))", "check_pcase_r", pterms, pmeta), ("c10_pc", "(pcase (T:=cfl))", "check_pcase_c", pcterms, pcmeta)):
+        pfails = set()
+        if pt:
+            outs, shard = L.run_shards(nm, HEADER, decl, pt, f"Eval vm_compute in (codes_from {chk} 0 cases).", shard=100)
+            for si, (rc, out) in enumerate(outs):
+                lst = L.parse_pairlist(out) if rc == 0 else None
+                if lst is None:
+                    mism.append(dict(oracle_fail=False, harness_error=f"Coq shard {nm}_{si}: rc={rc}\n{out[-1500:]}"))
+                    continue
+                for i, code in lst:
+                    (pfails if code == 1 else pties).add((nm, si * shard + i))
+        for i, m in enumerate(pm):
+            if (nm, i) in pfails or m["bad"]:
+                mism.append(dict(oracle_fail=bool(m["bad"]), case=m["case"], got=m["got"], failed_clauses=m["bad"], model_disagrees=((nm, i) in pfails)))
     near_tie += len(pties)
     return dict(
         evaluations=evals, distinct_nontrivial=len(distinct),
@@ -729,5 +753,5 @@ def run(ctx):
              "oracle output passed as exact rationals, model = slice, compared exactly; power iteration on PrimFloat; distinct by case hash (all have n>=1 and a non-trivial spectrum)",
         samples=samples, mismatches=mism, findings=fnd,
         extra=dict(histogram=hist, near_tie=near_tie, skipped_spoiled_region=skipped_region, ritz_only_cases_below_n=below_n,
-                   qi_cases=len(terms), power_cases=len(pterms), power_near_tie=len(pties),
+                   qi_cases=len(terms), power_cases=len(pterms) + len(pcterms), power_near_tie=len(pties),
                    auto_rule_observations=len(aterms), eigmax_eigmin_checked=eigmaxmin_checked[0]))
